@@ -169,6 +169,9 @@ def safe_callable_names(root: ast.Module) -> Collection[str]:
             nonreturn_children = []
             for child in node.body:
                 if core.is_blocking(child):
+                    if not isinstance(child, ast.Return):
+                        # Raising, or an if whose branches all return, is part of what the call does
+                        nonreturn_children.append(child)
                     break
 
                 nonreturn_children.append(child)
